@@ -369,17 +369,30 @@ func runC17(c *Ctx) {
 		}
 		c.Check(K(f.Name, "records stops"), f.Pos(), okStop, "a StopProviding operation is recorded", "no store under the stop case")
 		// every operation constant has a case
+		// (a case of `switch op`, or a comparison `op == K`, alone or as a member of an || chain)
 		cases := map[string]bool{}
-		f.Walk(func(n ast.Node) bool {
-			if cc, ok := n.(*ast.CaseClause); ok {
-				for _, e := range cc.List {
-					if co := eng.ConstObj(info, e); co != nil {
-						cases[co.Name()] = true
+		for _, name := range []string{"provideOnceOp", "startProvidingOp", "forceStartProvidingOp", "stopProvidingOp"} {
+			pred := opCase(name)
+			for _, b := range cf.G.Blocks {
+				if !b.Live || cf.Cond(b) == nil {
+					continue
+				}
+				for si := 0; si < 2; si++ {
+					for _, ft := range cf.EdgeFacts(b, si) {
+						if pred(ft) {
+							cases[name] = true
+						}
+					}
+					for _, grp := range cf.EdgeDisj(b, si) {
+						for _, ft := range grp {
+							if pred(ft) {
+								cases[name] = true
+							}
+						}
 					}
 				}
 			}
-			return true
-		})
+		}
 		for _, name := range []string{"provideOnceOp", "startProvidingOp", "forceStartProvidingOp", "stopProvidingOp"} {
 			c.Check(K(f.Name, "case "+name), f.Pos(), cases[name], "every queued operation kind is handled", "no case for "+name)
 		}
